@@ -67,6 +67,7 @@ def floors(tier):
     f = {'distinct_nontrivial': 2500 if tier == 'quick' else 40000, 'graded_results_checked_complete': 500,
          'graded_degenerate_cases': 150, 'sympy_symbol_cases': 60}
     f['multi_step_expressions'] = 150
+    f['extreme_grade_cases_d_ge_7'] = 100
     f['permuted_order_under_option'] = 300
     for v in VARIANTS:
         f['variant_' + v] = 60 if v == 'sympy-symbols' else 300
@@ -90,6 +91,10 @@ def plan(tier, seed):
         U.append({'cfg': {'named': '2DPGA'}, 'per_op': 2, 'sympy': False})
         U.append({'cfg': {'named': '3DPGA'}, 'per_op': 1, 'sympy': False, 'elementary_only': True})
         U.append({'cfg': gen.random_custom_cfg(rng, 3), 'per_op': 1, 'sympy': False})
+        # above six dimensions (lazy sign table; eight grades and more): scalars, vectors, pseudovectors and pseudoscalars
+        for c in ({'p': 7, 'q': 0, 'r': 0}, {'p': 8, 'q': 0, 'r': 0}, {'p': 6, 'q': 1, 'r': 1}):
+            dd = gen.cfg_dim(c)
+            U.append({'cfg': c, 'per_op': 5, 'sympy': False, 'elementary_only': True, 'grades_pool': [0, 1, dd - 1, dd]})
         nshards = 16
     else:
         for c in gen.pqr_all(1, 3) + gen.sig_orderings(2, 3)[::3]:
@@ -104,6 +109,9 @@ def plan(tier, seed):
         U.append({'cfg': {'named': 'STAP'}, 'per_op': 10, 'sympy': False, 'elementary_only': True})
         for _ in range(10):
             U.append({'cfg': gen.random_custom_cfg(rng, rng.choice((2, 3, 3))), 'per_op': 10, 'sympy': False})
+        for c in gen.pqr_all(7, 7)[::4] + gen.pqr_all(8, 8)[::6] + [{'p': 9, 'q': 0, 'r': 0}]:
+            dd = gen.cfg_dim(c)
+            U.append({'cfg': c, 'per_op': 12, 'sympy': False, 'elementary_only': True, 'grades_pool': [0, 1, dd - 1, dd]})
         nshards = 64
     rng.shuffle(U)
     return [{'units': part} for part in gen.split(U, nshards)]
@@ -143,8 +151,12 @@ def run_shard(shard, ctx):
                 one_case(ctx, base, algs, cfg, name, op, unit)
 
 
-def grade_block_keys(alg, rng, op):
+def grade_block_keys(alg, rng, op, pool=None):
     d = alg.d
+    if pool:
+        # d >= 7: complete grades are only affordable at both ends of the grade range (0, 1, d-1, d)
+        gs = tuple(sorted(rng.sample(pool, rng.randint(1, 2))))
+        return gs, alg.indices_for_grades[gs]
     composite = op in ops.COMPOSITE_BIN or op in ops.COMPOSITE_UN
     maxlen = (8 if d <= 3 else 6) if composite else 16
     for _ in range(20):
@@ -162,7 +174,9 @@ def one_case(ctx, base, algs, cfg, name, op, unit):
     rng = ctx.rng
     to = CASE_TIMEOUT[ctx.tier]
     arity = 2 if op in ops.BINARY else 1
-    pats = [grade_block_keys(base, rng, op) for _ in range(arity)]
+    pats = [grade_block_keys(base, rng, op, unit.get('grades_pool')) for _ in range(arity)]
+    if unit.get('grades_pool'):
+        ctx.count('extreme_grade_cases_d_ge_7')
     vals = []
     for gs, ks in pats:
         if op == 'sqrt':
